@@ -49,6 +49,17 @@ example : (iterate [] (.root 1 "index.txt" [.plain 2 [.root 3 "inc.rst" [.leaf 4
        .exit 5 (some "index.txt") (some "index.txt"), .exit 1 (some "index.txt") (some "index.txt")] := by
   decide
 
+/-- **Handler bookkeeping never underflows.** A handler that pushes on `enter_node` and pops on
+`exit_node` under the SAME test on the node (ContentsHandler / TabsSelectorHandler `scanned_pattern`,
+SubstitutionHandler's replacement-table and active-reference stacks, section depth counters) sees,
+over the walk of any tree and from any initial stack, no pop from an empty stack, and finds its stack
+exactly as before afterwards. (That enter and exit do use the same test is monitored on the real
+handlers by the harness: the stack length at exit equals the length before the matching enter.) -/
+theorem handler_stack_discipline (P : Nat → Bool) (d : Nd) (s : Stack) (st : List Nat) :
+    bracket P (iterate s d).1 st = some st := by
+  rw [iterate_spec]
+  exact bracket_spec P _ _ d st
+
 /-- Option subscripts that may stay unguarded, with the reason: both keys are written on the page's
 Root options by the same function a few lines earlier (`if not options.get(k): options[k] = {}`). -/
 def justified : List (String × String) :=
